@@ -182,18 +182,25 @@ structure FloatOps where
 inductive Exactness | exact | inexact | unspecified
 deriving DecidableEq, Repr
 
-/-- `Number::parse_rational`; `.err ()` = `None` -/
-def parseRational (fo : FloatOps) (radix : Nat) (s : Text) : Res Unit Num :=
-  let r32 : Res Unit (Int × Int) :=
-    match splitSlash s with
-    | none => .err ()
-    | some (a, b) =>
+/-- the `Rational32` stage of `parse_rational`: `.err ()` = fall through to `BigRational`.
+    Spellings one of whose parts is `i32::MIN` skip this stage (repair of the `Ratio::new`
+    overflow); a text without `/` fails `Ratio::from_str_radix` in any case. -/
+def parseRational32 (radix : Nat) (s : Text) : Res Unit (Int × Int) :=
+  match splitSlash s with
+  | none => .err ()
+  | some (a, b) =>
+    if parseIntStd inI32 radix a = some i32Min ∨ parseIntStd inI32 radix b = some i32Min then .err ()
+    else
       match parseIntStd inI32 radix a with
       | none => .err ()
       | some n =>
         match parseIntStd inI32 radix b with
         | none => .err ()
         | some d => if d = 0 then .err () else ratioNew32 n d
+
+/-- `Number::parse_rational`; `.err ()` = `None` -/
+def parseRational (fo : FloatOps) (radix : Nat) (s : Text) : Res Unit Num :=
+  let r32 : Res Unit (Int × Int) := parseRational32 radix s
   match r32 with
   | .panic m => .panic m
   | .ok (n, d) => if d = 1 then .ok (.fix n) else .ok (.rat n d)
